@@ -144,7 +144,7 @@ func runScenario(t *testing.T, run *mon.Run, sc scenario) {
 	e := &env{t: t, run: run, sc: sc, rng: rand.New(rand.NewSource(sc.seed)), fetches: map[string]int{}}
 	rng := e.rng
 	s := fakeredis.New(fakeredis.Options{Seed: sc.seed}, addr)
-	defer s.Close()
+	defer func() { await(time.Hour, s.Close) }()
 	node := s.Node(addr)
 
 	s.OnExec = func(ev fakeredis.Event) {
@@ -193,7 +193,7 @@ func runScenario(t *testing.T, run *mon.Run, sc scenario) {
 		run.Inconclusive("client setup failed: " + err.Error())
 		return
 	}
-	defer client.Close()
+	defer func() { await(time.Hour, client.Close) }()
 	ctx := context.Background()
 
 	keys := []string{"ka", "kb", "kc", "kd"}
@@ -217,7 +217,7 @@ func runScenario(t *testing.T, run *mon.Run, sc scenario) {
 		node.Exec("SET", k, v, "PX", fmt.Sprint(d.Milliseconds()))
 		serverX[k] = nowMs() + d.Milliseconds()
 		state[k].val = v
-		state[k].e = 0 // the SET invalidated whatever was cached
+		state[k].e = 0  // the SET invalidated whatever was cached
 		synctest.Wait() // let the invalidation push reach the client before the next read
 	}
 
@@ -406,50 +406,56 @@ func runScenario(t *testing.T, run *mon.Run, sc scenario) {
 			}
 			return c
 		}
-		switch api {
-		case apiDoCache, apiDoCacheStatic:
-			res := client.DoCache(ctx, mk(reads[0]), reads[0].ttl)
-			if m, err := res.ToMessage(); err != nil && !rueidis.IsRedisNil(err) {
-				results[reads[0].key] = got{err: err}
-			} else {
-				g := read1(&m)
-				// the accessors of the result itself must agree with those of its message
-				if res.IsCacheHit() != g.hit || res.CachePXAT() != g.pxat || res.CachePTTL() != g.pttl || res.CacheTTL() != g.ttl {
-					e.violation("accessor-mismatch", "RedisResult-vs-RedisMessage", map[string]any{"key": reads[0].key})
-				}
-				results[reads[0].key] = g
-			}
-		case apiMulti, apiMultiStatic, apiMultiMixed:
-			cts := make([]rueidis.CacheableTTL, len(reads))
-			for i, r := range reads {
-				cts[i] = rueidis.CT(mk(r), r.ttl)
-			}
-			for i, res := range client.DoMultiCache(ctx, cts...) {
+		returned := await(6*time.Hour, func() {
+			switch api {
+			case apiDoCache, apiDoCacheStatic:
+				res := client.DoCache(ctx, mk(reads[0]), reads[0].ttl)
 				if m, err := res.ToMessage(); err != nil && !rueidis.IsRedisNil(err) {
-					results[reads[i].key] = got{err: err}
+					results[reads[0].key] = got{err: err}
 				} else {
-					results[reads[i].key] = read1(&m)
+					g := read1(&m)
+					// the accessors of the result itself must agree with those of its message
+					if res.IsCacheHit() != g.hit || res.CachePXAT() != g.pxat || res.CachePTTL() != g.pttl || res.CacheTTL() != g.ttl {
+						e.violation("accessor-mismatch", "RedisResult-vs-RedisMessage", map[string]any{"key": reads[0].key})
+					}
+					results[reads[0].key] = g
+				}
+			case apiMulti, apiMultiStatic, apiMultiMixed:
+				cts := make([]rueidis.CacheableTTL, len(reads))
+				for i, r := range reads {
+					cts[i] = rueidis.CT(mk(r), r.ttl)
+				}
+				for i, res := range client.DoMultiCache(ctx, cts...) {
+					if m, err := res.ToMessage(); err != nil && !rueidis.IsRedisNil(err) {
+						results[reads[i].key] = got{err: err}
+					} else {
+						results[reads[i].key] = read1(&m)
+					}
+				}
+			case apiMGet:
+				ks := make([]string, len(reads))
+				for i, r := range reads {
+					ks[i] = r.key
+				}
+				res := client.DoCache(ctx, client.B().Mget().Key(ks...).Cache(), oneTTL)
+				arr, err := res.ToArray()
+				for i, r := range reads {
+					if err != nil || i >= len(arr) {
+						results[r.key] = got{err: fmt.Errorf("mget: %v (len %d)", err, len(arr))}
+						continue
+					}
+					g := read1(&arr[i])
+					g.outerHit, g.hasOut = res.IsCacheHit(), true
+					results[r.key] = g
 				}
 			}
-		case apiMGet:
-			ks := make([]string, len(reads))
-			for i, r := range reads {
-				ks[i] = r.key
-			}
-			res := client.DoCache(ctx, client.B().Mget().Key(ks...).Cache(), oneTTL)
-			arr, err := res.ToArray()
-			for i, r := range reads {
-				if err != nil || i >= len(arr) {
-					results[r.key] = got{err: fmt.Errorf("mget: %v (len %d)", err, len(arr))}
-					continue
-				}
-				g := read1(&arr[i])
-				g.outerHit, g.hasOut = res.IsCacheHit(), true
-				results[r.key] = g
-			}
+		})
+		if !returned { // the main goroutine of the bubble must never block for ever on the client
+			e.violation("call-never-returned", apiNames[api], map[string]any{"reads": fmt.Sprint(reads), "step": step, "server_delay_ms": d.Milliseconds(), "stacks": drv.Tail(bubbleStacks(), 8000)})
+			return
 		}
-		synctest.Wait()  // the server's Then callbacks run after the reply was queued: let them finish (no virtual time passes)
-		t1 := nowMs() // virtual instant at which the call returned (no transit time in the bubble)
+		synctest.Wait() // the server's Then callbacks run after the reply was queued: let them finish (no virtual time passes)
+		t1 := nowMs()   // virtual instant at which the call returned (no transit time in the bubble)
 		if os.Getenv("VERIF_DEBUG") != "" {
 			fmt.Printf("DEBUG step %d api=%s reads=%v d=%v t0=%d t1=%d miss=%v planP=%v results=%v recs=%v\n", step, apiNames[api], reads, d, t0, t1, missKeys, planP, results, e.recs)
 			for _, ev := range s.Log() {
